@@ -928,7 +928,23 @@ def c10_families(tier, seed, ids=None):
                     continue
             items += [it, probe]
         ss.append(mk(ids, items, {"ops": [n for n, _ in seq], "strings": strs}))
-    return [("operation histories over values that share structure", ss, ("value",))]
+    # forks: a value built by k successive concatenations is extended twice; the first extension (held in a variable, an array and a
+    # closure) must not change when the second is computed -- for strings and for arrays, at top level and inside a function
+    fk = []
+    for strs in (False, True):
+        unit = (lambda c: St(c)) if strs else (lambda c: lst([St(c)]))
+        for k in range(0, 5):
+            for where in ("top", "fn"):
+                build = [assign("s", unit("a"))] + [assign("s", bin_("+", N("s"), unit("bcdefgh"[j]))) for j in range(k)]
+                fork = [assign("fa", bin_("+", N("s"), unit("X"))), assign("keep", lst([N("fa")])), assign("kc", call("mkcl", N("fa"))), assign("fb", bin_("+", N("s"), unit("Y"))),
+                        assign("fc", bin_("+", bin_("+", N("s"), unit("Z")), unit("W")))]
+                probe2 = lst([N("s"), N("fa"), N("fb"), N("fc"), N("keep"), call("kc")])
+                if where == "top":
+                    items = [assign("mkcl", fn(["a"], fn([], N("a"))))] + build + fork + [probe2]
+                else:
+                    items = [assign("mkcl", fn(["a"], fn([], N("a")))), assign("run", fn([], block(build + fork + [probe2]))), call("run"), call("run")]
+                fk.append(mk(ids, items, {"ops": ["fork", "fork"], "fork": [strs, k, where]}))
+    return [("operation histories over values that share structure", ss, ("value",)), ("a grown value extended twice", fk, ("value",))]
 
 
 def c10_nontrivial(v):
@@ -1317,8 +1333,23 @@ def c11_families(tier, seed, ids=None):
             ga = [assign("ga", ea)] if a != "nil" else []
             A = N("ga") if a != "nil" else N("nn")
             us.append(mk(ids, [IDF] + ga + [un(op, ea), un(op, A), un(op, un(op, A)), un("!", un(op, A)), lst([un(op, A)]), I(1)], {"un": op, "a": a}))
+    # index and slice bounds: every pair of bounds from -1 to two past the length, over arrays and strings however they were produced
+    # (literal, concatenation, computed elements, sub-slice of a longer value, built in a loop)
+    ix = []
+    makers = {"literal": lst([I(1), I(2), I(3)]), "concat": bin_("+", lst([I(1), I(2)]), lst([I(3)])), "computed": lst([N("one"), bin_("+", N("one"), I(1)), I(3)]),
+              "subslice": ix2(lst([I(1), I(2), I(3), I(4), I(5)]), I(0), I(3)), "grown": N("grown"), "str-literal": St("abc"), "str-concat": bin_("+", St("ab"), St("c")),
+              "str-subslice": ix2(St("abcde"), I(0), I(3)), "empty": lst([]), "empty-slice": ix2(lst([I(1), I(2)]), I(1), I(1))}
+    pre = [assign("one", I(1)), assign("grown", lst([])), fr(["g"], [call("fromto", I(1), I(4))], assign("grown", bin_("+", N("grown"), lst([N("g")]))))]
+    for mname, mk_e in makers.items():
+        n = 0 if mname.startswith("empty") else 3
+        items = list(pre) + [assign("v", mk_e), un("#", N("v"))]
+        for i in range(-1, n + 3):
+            items.append(ix1(N("v"), I(i)))
+            for j in range(-1, n + 3):
+                items.append(ix2(N("v"), I(i), I(j)))
+        ix.append(mk(ids, items + [I(1)], {"bounds": mname}))
     return [("binary operators over special values as the compiler builds them: bare, negated, via globals, via parameters", ss, ("value",)),
-            ("unary operators, nested", us, ("value",))]
+            ("unary operators, nested", us, ("value",)), ("index and slice bounds over values however produced", ix, ("value",))]
 
 
 c11_rule = ("17 binary operators x 18x18 operands (ints, exact floats, signed zero, NaN, +-Inf, booleans, strings, arrays (one holding NaN), nil, a function) each written bare, "
